@@ -5,9 +5,11 @@ pub trait ExWrite {
     type ExternalTraitSpecificationFor: Write;
     /// every byte successfully written to this sink so far
     spec fn sent(&self) -> Seq<u8>;
+    /// opaque identity of the sink (which connection / buffer it is); writing never changes it
+    spec fn ident(&self) -> int;
     fn write(&mut self, buf: &[u8]) -> (r: io::Result<usize>)
         ensures r matches Ok(n) ==> n <= buf@.len() && final(self).sent() == old(self).sent() + buf@.take(n as int),
-                r is Err ==> final(self).sent() == old(self).sent();
+                r is Err ==> final(self).sent() == old(self).sent(), final(self).ident() == old(self).ident();
     fn flush(&mut self) -> (r: io::Result<()>)
-        ensures final(self).sent() == old(self).sent();
+        ensures final(self).sent() == old(self).sent(), final(self).ident() == old(self).ident();
 }
